@@ -41,7 +41,7 @@ Definition step (s : st) (r : list Z) : option st :=
     (* a corrupted datagram (pkind 3) may carry a damaged CID and reach another connection, which
        then fails to authenticate it: only intact copies are judged *)
     if ((out =? 1) || (out =? 2)) && (0 <=? origin) && negb (fld r 9 =? 3)
-       && negb ((fld r 6) mod 1000 =? origin) && negb fresh_attempt then None
+       && negb ((fld r 6) mod 1000 =? origin mod 1000) && negb fresh_attempt then None
     else if out =? 3 then Some {| lastp := lastp s; resp := rep r :: resp s; connected := connected s; born := born s; closed := closed s; genuine := genuine s; lossy := lossy s |}
     else if (out =? 1) && ((fld r 9 =? 0) || (fld r 9 =? 2)) then
       Some {| lastp := lastp s; resp := resp s; connected := connected s; born := born s; closed := closed s;
